@@ -89,6 +89,68 @@ def inst_collection_keys():
     return Instance("c04[collection keys before/after in-place expression replacement]", body, {}, unit="Array.__dask_keys__/_cached_dask_keys/_replace_expr/_lowered_expr")
 
 
+def _structure_ok(E, dsk, m, name, nb, tag):
+    """closure / acyclicity / key grid read off the task objects themselves (dask's GraphNode.dependencies), for graphs whose
+    kernels have no symbolic-array meaning and are therefore not executed"""
+    E.ensure(f"{tag}-keeps-the-root-name", m._name == name)
+    want = {(name,) + g for g in grid(nb)}
+    have = {k for k in dsk if isinstance(k, tuple) and k and k[0] == name}
+    E.ensure(f"{tag}-key-grid", have == want)
+    deps = {k: tuple(getattr(t, "dependencies", ()) or ()) for k, t in dsk.items()}
+    missing = sorted({repr(d) for ds in deps.values() for d in ds if d not in dsk})
+    E.ensure(f"{tag}-dependencies-defined", not missing, site=("missing " + missing[0]) if missing else None)
+    state = {}
+
+    def acyclic(k):
+        stack = [(k, iter(deps.get(k, ())))]
+        state[k] = 1
+        while stack:
+            node, it = stack[-1]
+            nxt = next(it, None)
+            if nxt is None:
+                state[node] = 2
+                stack.pop()
+                continue
+            if nxt not in deps:
+                continue
+            if state.get(nxt) == 1:
+                return False
+            if state.get(nxt) is None:
+                state[nxt] = 1
+                stack.append((nxt, iter(deps[nxt])))
+        return True
+
+    E.ensure(f"{tag}-acyclic", all(acyclic(k) for k in deps if state.get(k) is None))
+
+
+def inst_structure(label, build, blocks):
+    """programs whose block functions are data-dependent NumPy code (np.unique ...): the graph is not executed; its keys and
+    task dependencies are checked for every chunk-size assignment (how many blocks a companion array gets depends on them)"""
+    from symx.runner import Instance
+
+    def body(E):
+        w = catalog.W(E)
+        x = catalog.source(w, E, "x", blocks)
+        coll = w.fn(catalog.NC, "new_collection")(x.node)
+        outs = build(w, coll)
+        for j, out in enumerate(outs if isinstance(outs, (tuple, list)) else [outs]):
+            node = out.expr
+            for stage in ("materialized", "materialized_off"):
+                m = catalog.stages(E, w, node, {stage})[stage]
+                dsk = catalog._layers(m)
+                _structure_ok(E, dsk, m, node._name, tuple(len(c) for c in node.chunks), f"out{j}-{stage}")
+
+    return Instance(f"c04-structure[{label},blocks={blocks}]", body, dict(program=label, blocks=blocks),
+                    unit="_materialize + _layer of every node (keys and dependencies only)")
+
+
+def _unique(**kw):
+    return lambda w, coll: w.fn("dask_array.routines._unique", "unique")(coll, **kw)
+
+
 def instances(tier):
-    return catalog.make_instances(tier, "C04", _body, "_materialize + key grids and dependencies of every catalogue class") + \
+    extra = [inst_structure("unique(x,return_counts)", _unique(return_counts=True), (3,)),
+             inst_structure("unique(x,return_index,return_counts)", _unique(return_index=True, return_counts=True), (2,)),
+             inst_structure("unique(x)", _unique(), (3,))]
+    return extra + catalog.make_instances(tier, "C04", _body, "_materialize + key grids and dependencies of every catalogue class") + \
         [inst_collection_keys()]
